@@ -217,11 +217,11 @@ def _cum(xs):
 # WSGI SendEventResponse under owned schedules
 
 
-def run_sched(schedule, ping_mode):
-    out = wsched.run_schedule(schedule, ping_interval=0.01 if ping_mode else 30.0, watchdog=5.0)
+def run_sched(schedule, ping_mode, cleanup=0.0):
+    out = wsched.run_schedule(schedule, ping_interval=0.01 if ping_mode else 30.0, watchdog=5.0, cleanup_sleep=cleanup)
     if out.hang is not None:
         # a loaded machine must not fabricate a violation: confirm with a long watchdog
-        out2 = wsched.run_schedule(schedule, ping_interval=0.01 if ping_mode else 30.0, watchdog=20.0)
+        out2 = wsched.run_schedule(schedule, ping_interval=0.01 if ping_mode else 30.0, watchdog=20.0, cleanup_sleep=cleanup)
         if out2.hang is None:
             return out2, True
         return out2, False
@@ -234,8 +234,9 @@ def oracle_wsgi_sse(case) -> Result:
     ping_mode = bool(case.get("ping"))
     if not wsched.feasible(schedule, ping_mode):
         raise core.HarnessError(f"infeasible schedule {schedule!r}")
-    out, retried = run_sched(schedule, ping_mode)
-    ctx = f"schedule {schedule!r}{' (ping class)' if ping_mode else ''}"
+    cleanup = float(case.get("cleanup") or 0.0)
+    out, retried = run_sched(schedule, ping_mode, cleanup)
+    ctx = f"schedule {schedule!r}{' (ping class)' if ping_mode else ''}{f' (producer cleanup takes {cleanup}s)' if cleanup else ''}"
     if retried:
         r.label("watchdog-retry")
     if out.hang is not None:
@@ -276,7 +277,9 @@ def oracle_wsgi_sse(case) -> Result:
         r.label("producer-raises")
     if out.pings:
         r.label("pings-seen")
-    r.key = (schedule, ping_mode)
+    if cleanup:
+        r.label("slow-producer-cleanup")
+    r.key = (schedule, ping_mode, cleanup)
     _ = (p, c)
     return r
 
@@ -439,6 +442,7 @@ SUBS = {
     "wsgi_sse": oracle_wsgi_sse,
     "wsgi_sse_ping": oracle_wsgi_sse,
     "wsgi_sse_long": oracle_wsgi_sse,
+    "wsgi_sse_cleanup": oracle_wsgi_sse,
     "wsgi_stream": oracle_wsgi_stream,
 }
 
@@ -519,6 +523,10 @@ def run(rec, only=None):
     ping_scheds = list(wsched.enumerate_schedules(3 if quick else 4, True)) + [s for s in stalls if wsched.feasible(s, True)]
     core.drive_cases(rec, "wsgi_sse_ping", ({"schedule": s, "ping": True} for s in ping_scheds), oracle_wsgi_sse)
     rec.exhaustive["wsgi_sse_ping"] = True
+    # the user's cleanup code (the generator's finally) takes 50 ms: the close must still return with the producer's
+    # step, not a ping interval (30 s here) later
+    core.drive_cases(rec, "wsgi_sse_cleanup", ({"schedule": s, "cleanup": 0.05} for s in wsched.enumerate_schedules(4 if quick else 6) if "X" in s or "C" in s), oracle_wsgi_sse)
+    rec.exhaustive["wsgi_sse_cleanup"] = True
     core.drive_cases(rec, "wsgi_pool", ({"busy": b, "consume": c} for b in (0, 9, 10, 12) for c in (0, 1, 3)), oracle_wsgi_pool)
     rec.exhaustive["wsgi_pool"] = True
     grid = list(asgi_grid())
